@@ -211,10 +211,15 @@ class ProductErrorNode(ErrorNode):
             print(f"{indent}  Unexpected field '{field}'", file=file)
 
 
+_UNSET: t.Any = object()
+
+
 @dataclasses.dataclass
 class SumErrorNode(ErrorNode):
     children: t.List[ErrorNode]
     """Map containing the errors while parsing as each variant"""
+    actual: t.Any = dataclasses.field(default=_UNSET, repr=False, compare=False)
+    """Actual value received (if known; otherwise taken from the variants)"""
 
     def print_error(self, indent: str = "", inside_sum: bool = False, file: t.TextIO = sys.stdout):
         def _flatten_sum(children: t.Iterable[ErrorNode]) -> t.Iterator[ErrorNode]:
@@ -230,6 +235,9 @@ class SumErrorNode(ErrorNode):
             print(f"{indent}- ", end="", file=file)
             child.print_error(f"{indent}  ", inside_sum=True, file=file)
             actual = getattr(child, 'actual', actual)
+        if self.actual is not _UNSET:
+            # variants may report a part (or a converted form) of the value; show what the union itself was given
+            actual = self.actual
         print(f"{indent}Instead got `{actual}` of type `{type(actual).__name__}`", file=file)
 
 
